@@ -293,6 +293,69 @@ class Ex2(ZooModel):
         return t
 
 
+class GaussConstrained(ZooModel):
+    """Uniform prior on the half of the box where x0 >= x1 (zero prior in the other half: a hole *inside* the bounding box), Gaussian likelihood centred next to
+    the edge of the hole.  Closed-form evidence.  The default new_point draws from the box and rejects zero-prior points, as nessai documents."""
+
+    def __init__(self, a=0.3, lo=-5.0, hi=5.0):
+        self.names = ["x0", "x1"]
+        self.bounds = {n: [lo, hi] for n in self.names}
+        self.mu = np.array([a, -a])
+        self._logdens = math.log(2.0) - 2 * math.log(hi - lo)
+        self._init_boundary()
+
+    def in_support(self, x):
+        return self.in_bounds(x) & (x["x0"] >= x["x1"])
+
+    def _lp(self, x):
+        return np.log(self.in_support(x), dtype=float) + self._logdens
+
+    def _ll(self, x):
+        return -0.5 * ((x["x0"] - self.mu[0]) ** 2 + (x["x1"] - self.mu[1]) ** 2) - LOG2PI
+
+    def _boundary(self, x, kind="L"):
+        super()._boundary(x, kind)
+        if kind == "L":
+            hole = ~np.atleast_1d(x["x0"] >= x["x1"])
+            if np.any(hole):
+                self.b_oob += int(np.sum(hole))   # a likelihood call inside the hole is a call outside the prior support
+                if len(self.b_oob_examples) < 3:
+                    xx = np.atleast_1d(x)
+                    self.b_oob_examples.append([float(xx[nm][hole][0]) for nm in self.names])
+
+    def log_prior_unit_hypercube(self, x):
+        x = self.unstructured_view(x)
+        inside = ~np.any((x < 0) | (x >= 1), axis=-1) & (x[..., 0] >= x[..., 1])
+        with np.errstate(divide="ignore"):
+            return np.log(inside, dtype=float) + math.log(2.0)
+
+    @property
+    def true_log_evidence(self):
+        # P(x0 >= x1) under N(mu, I) is Phi((mu0 - mu1)/sqrt(2)); box truncation at > 4.7 sigma is below 1e-5
+        return self._logdens + math.log(ndtr((self.mu[0] - self.mu[1]) / math.sqrt(2.0)))
+
+    def sample_prior(self, n, rng):
+        from nessai.livepoint import numpy_array_to_live_points
+
+        lo, hi = self.bounds["x0"]
+        a = rng.uniform(lo, hi, (n, 2))
+        a = np.where((a[:, :1] >= a[:, 1:2]), a, a[:, ::-1])
+        return numpy_array_to_live_points(a, self.names)
+
+
+class GaussFlat(GaussU):
+    """Gaussian in x0, likelihood independent of x1: the live points span the whole prior range of x1 up to its edges."""
+
+    def _ll(self, x):
+        z = (x["x0"] - self.mu[0]) / self.sigma[0]
+        return -0.5 * z * z - math.log(self.sigma[0]) - 0.5 * LOG2PI + 0.0 * x["x1"]
+
+    @property
+    def true_log_evidence(self):
+        lo, hi = self.bounds["x0"]
+        return math.log(ndtr((hi - self.mu[0]) / self.sigma[0]) - ndtr((lo - self.mu[0]) / self.sigma[0])) - math.log(hi - lo)
+
+
 class Tie2(GaussU):
     """Gaussian likelihood rounded to a coarse grid: many exact ties and plateaus."""
 
@@ -340,6 +403,10 @@ def make(name, **kw):
         m = GaussTN(2, **kw)
         m.box_draws = True
         return m
+    if name == "G2c":
+        return GaussConstrained(**kw)
+    if name == "G2f":
+        return GaussFlat(2, **kw)
     if name == "Ex2":
         return Ex2(2, **kw)
     if name == "Tie2":
